@@ -65,6 +65,42 @@ fn run_fix(item: &serde_json::Value, out: &mut Out) {
     out.flush();
 }
 
+/// the swap behind a candidate, parsed from its print text (the only trace of it the candidate carries):
+/// {k: PE|SM|HH|RN, a, b: first / last node, p, r: provider / receiver (or the vehicle twice)}
+fn swap_desc(text: &str, node_ids: &std::collections::HashMap<String, String>) -> serde_json::Value {
+    let w: Vec<&str> = text.split_whitespace().collect();
+    let node = |t: &str| node_ids.get(t).cloned().unwrap_or_else(|| format!("?{}", t));
+    let bad = || json!({"k": "??", "a": text, "b": "", "p": "", "r": ""});
+    match w.first().copied() {
+        Some("PathExchange") => {
+            // PathExchange [a..b] from P[ (ty)] to R[ (ty)]
+            let seg = w[1].trim_start_matches('[').trim_end_matches(']');
+            let (a, b) = match seg.split_once("..") {
+                Some((a, b)) => (a, b),
+                None => (seg, seg),
+            };
+            let fi = w.iter().position(|&x| x == "from");
+            let ti = w.iter().position(|&x| x == "to");
+            match (fi, ti) {
+                (Some(fi), Some(ti)) if fi + 1 < w.len() && ti + 1 < w.len() => {
+                    json!({"k": "PE", "a": node(a), "b": node(b), "p": w[fi + 1], "r": w[ti + 1]})
+                }
+                _ => bad(),
+            }
+        }
+        Some("SpawnVehicleForMaintenance") if w.len() >= 5 => {
+            json!({"k": "SM", "a": node(w[1]), "b": node(w[1]), "p": w[4], "r": w[4]})
+        }
+        Some("AddTripForHitchHiking") if w.len() >= 4 => {
+            json!({"k": "HH", "a": node(w[1]), "b": node(w[1]), "p": w[3], "r": w[3]})
+        }
+        Some("RemoveSingleNode") if w.len() >= 4 => {
+            json!({"k": "RN", "a": node(w[1]), "b": node(w[1]), "p": w[3], "r": w[3]})
+        }
+        _ => bad(),
+    }
+}
+
 fn run_cand(item: &serde_json::Value, out: &mut Out, max_cands: usize, call_stride: u64) {
     let name = item["name"].as_str().unwrap_or("?").to_string();
     let input = item["input"].clone();
@@ -88,6 +124,8 @@ fn run_cand(item: &serde_json::Value, out: &mut Out, max_cands: usize, call_stri
             return;
         }
     };
+    let node_ids: std::collections::HashMap<String, String> =
+        nw.all_nodes().map(|n| (n.to_string(), crate::netdump::nid(&nw, n))).collect();
     let neighborhood = RSSchedParallelNeighborhood::new(Some(Duration::new("3:00:00")), Some(Duration::new("0:10:00")), nw.clone());
     for _ in 0..steps {
         let before = solution::verif::project(base.get_schedule());
@@ -119,19 +157,24 @@ fn run_cand(item: &serde_json::Value, out: &mut Out, max_cands: usize, call_stri
                         continue;
                     }
                     match guarded(|| solution::verif::project(c.get_schedule())) {
-                        Ok(p) => out.emit(&json!({"ev": "cand", "name": name, "swap": c.get_print_text(), "S": p})),
+                        Ok(p) => out.emit(&json!({"ev": "cand", "name": name, "swap": c.get_print_text(),
+                            "sw": swap_desc(c.get_print_text(), &node_ids), "S": p})),
                         Err(m) => out.emit(&json!({"ev": "candfail", "name": name, "swap": c.get_print_text(), "msg": m})),
                     }
                     logged += 1;
                 }
-                out.emit(&json!({"ev": "enum", "name": name, "ok": true, "panic": false, "n": n, "logged": logged, "hb": hb, "ha": ha}));
+                // the whole neighbourhood as swap descriptors (the schedules themselves are sampled above)
+                let all: Vec<serde_json::Value> = cands.iter().map(|c| swap_desc(c.get_print_text(), &node_ids)).collect();
+                out.emit(&json!({"ev": "enum", "name": name, "ok": true, "panic": false, "n": n, "logged": logged,
+                    "hb": hb, "ha": ha, "all": all}));
                 if n == 0 {
                     break;
                 }
                 base = cands[rng.below(n)].clone();
             }
             Err(msg) => {
-                out.emit(&json!({"ev": "enum", "name": name, "ok": false, "panic": true, "msg": msg, "n": 0, "logged": 0, "hb": hb, "ha": ha}));
+                out.emit(&json!({"ev": "enum", "name": name, "ok": false, "panic": true, "msg": msg, "n": 0, "logged": 0,
+                    "hb": hb, "ha": ha, "all": []}));
                 break;
             }
         }
